@@ -19,7 +19,7 @@ ASSUMPTIONS = ['dense operators are M1..Md x N1..Nd arrays obtained by the harne
                'np.int64 / complex-divisor scalar forms that the library explicitly refuses are outside the workload (see C03)']
 REQUIRED_REACH = ['_tt_base:TT.__matmul__', '_aux_ops:dense_matvec', '_tt_base:TT.t', '_tt_base:TT.__add__', '_tt_base:TT.__sub__', '_tt_base:TT.__mul__',
                   '_tt_base:TT.full', '_tt_base:TT.__truediv__', '_tt_base:TT.__neg__']
-REQUIRED_COUNTS = {'branch:A@x': 1, 'branch:x@A': 1, 'branch:A@B': 1, 'branch:A@dense/batch0': 1, 'branch:A@dense/batch1': 1, 'branch:A@dense/batch2': 1,
+REQUIRED_COUNTS = {'history_value_checks': 200, 'branch:A@x': 1, 'branch:x@A': 1, 'branch:A@B': 1, 'branch:A@dense/batch0': 1, 'branch:A@dense/batch1': 1, 'branch:A@dense/batch2': 1,
                    'branch:A@dense/batch3': 1, 'branch:t': 1, 'branch:add': 1, 'branch:sub': 1, 'branch:mul': 1, 'branch:full/order1': 1,
                    'branch:full/order>=2': 1, 'branch:scalar': 1, 'exact_comparisons': 100}
 LINE_FUNCS = ['TT.__matmul__', 'dense_matvec', 'TT.t', 'TT.full']
@@ -82,12 +82,19 @@ def cases(tier, seed):
                                 for op in ('Ax', 'xA', 'AB', 'Adense'):
                                     cs.append({'gen': 'op', 'op': op, 'M': list(M), 'K': list(K), 'N': list(N), 'RA': [1] + list(RA) + [1],
                                                'RB': [1] + list(RB) + [1], 'dtype': 'f64', 'vals': 'int', 'batch': [2]})
+    from .. import hist
+    cs += hist.cases(PROP, tier, seed)
     return cs
 
 
 def run_case(case, ctx):
     g = gens.tgen(case['seed'])
     globals()['run_' + case['gen']](case, ctx, g)
+
+
+def run_hist(case, ctx, g):
+    from .. import hist
+    hist.run(PROP, case, ctx)
 
 
 def run_op(case, ctx, g):
